@@ -34,7 +34,14 @@ func (r *Reader) readInfe(b *box) (err error) {
 		infeFastHeaderSize := 21
 
 		var contentType imagetype.ImageType
+		if i+12 > len(buf) {
+			break
+		}
 		size := int(bmffEndian.Uint32(buf[i : i+4]))
+		if size < 12 || i+size > len(buf) {
+			// a child box must at least hold its own header and fit into the iinf payload
+			break
+		}
 		boxType := boxTypeFromBuf(buf[i+4 : i+8])
 		flags := flags(bmffEndian.Uint32(buf[i+8 : i+12]))
 
@@ -51,6 +58,10 @@ func (r *Reader) readInfe(b *box) (err error) {
 			continue
 		}
 
+		if size < infeFastHeaderSize+1 {
+			i += size
+			continue
+		}
 		itemID := itemID(bmffEndian.Uint16(buf[i+12 : i+14]))
 		itemType := itemTypeFromBuf(buf[i+16 : i+20])
 		// expect whitespace
